@@ -103,6 +103,10 @@ class Op1Sub(Op1):
     pass
 
 
+class Op1SubSub(Op1Sub):
+    pass
+
+
 class Op2(Op1):  # separate hierarchy root for default_conversion alternatives
     def __str__(self):
         return "op2<%s>" % (self.v,)
@@ -326,7 +330,7 @@ UnionIS = Union[int, str]
 UnionSI = Union[str, int]
 
 TYPES: Dict[str, Any] = {
-    "P": P, "Q": Q, "C": C, "N": N, "Op1": Op1, "Op1Sub": Op1Sub, "Op2": Op2, "Op3": Op3, "H": H, "HR": HR, "H3": H3,
+    "P": P, "Q": Q, "C": C, "N": N, "Op1": Op1, "Op1Sub": Op1Sub, "Op1SubSub": Op1SubSub, "Op2": Op2, "Op3": Op3, "H": H, "HR": HR, "H3": H3,
     "SOF": SOF, "SOD": SOD, "HS": HS, "TN": TN, "TwoTN": TwoTN, "Animal": Animal, "Cat": Cat, "Zoo": Zoo,
     "AL": AL, "OR": OR, "V1": V1, "V1Sub": V1Sub, "DR": DR, "S1": S1, "S1Sub": S1Sub, "FS": FS, "Rec": Rec,
     "U": U, "L": L, "RawInit": RawInit, "FL": FL, "FLInner": FLInner, "LPet": LPet, "ListP": List[P], "ListInt": List[int], "DictStrInt": Dict[str, int], "PosInt": PosInt,
@@ -1262,6 +1266,8 @@ _ser("ListInt.wrong", "ListInt", lambda: ["a"], "checktype")
 _ser("Q", "Q", lambda: Q(1, "s"), "exclude", "alias")
 _ser("Op1", "Op1", lambda: Op1(5), "conv_s")
 _ser("Op1Sub", "Op1Sub", lambda: Op1Sub(6), "conv_s")
+_ser("Op1SubSub", "Op1SubSub", lambda: Op1SubSub(9), "conv_s")
+_ser("Op1.subsub_instance", "Op1", lambda: Op1SubSub(10), "conv_s")
 _ser("Op1.sub_instance", "Op1", lambda: Op1Sub(7), "conv_s")
 _ser("Op2", "Op2", lambda: Op2(8), "conv_s", "op2")
 _ser("L", "L", lambda: L("b", Color.BLUE), "enum")
@@ -1364,7 +1370,8 @@ GENERATION_OBS = [o for o in OBS if o not in EXCLUDED_FROM_GENERATION]
 def same_target(cfg_name: str, obs_name: str) -> bool:
     """the configuration operation names the very type the observation is about"""
     cp, op = cfg_name.split("."), obs_name.split(".")
-    return len(cp) > 1 and len(op) > 1 and cp[1] == op[1]
+    # (a subclass named after its base counts: Op1Sub / Op1SubSub observations for an Op1 operation)
+    return len(cp) > 1 and len(op) > 1 and (cp[1] == op[1] or op[1].startswith(cp[1]))
 
 
 _WARM: Dict[str, List[str]] = {}
